@@ -110,7 +110,6 @@ Proof.
 Qed.
 
 (* ------------------------------------------------------------------ well-formed configurations *)
-Definition fwd_addr (s : sub) : addr := (fwd_ip (fst (sb_bbmd s)) (sb_mask s), snd (sb_bbmd s)).
 Definition twohop (s : sub) : bool := addr_eqb (fwd_addr s) (sb_bbmd s).
 
 Record wf (c : acfg) : Prop := mkWf {
@@ -758,4 +757,26 @@ Proof.
   destruct (addr_eq_dec a (rcv_addr o)) as [->|Na].
   - apply count_occ_not_In. exact Ne.
   - apply (proj1 (NoDup_count_occ' addr_eq_dec _) N). apply Cov; assumption.
+Qed.
+
+(* ------------------------------------------------------------------ deciding wf *)
+Lemma nodupb_sound : forall l, nodupb l = true -> NoDup l.
+Proof.
+  induction l as [|x l IH]; intros H; [constructor|]. cbn [nodupb] in H. apply andb_true_iff in H. destruct H as [H1 H2].
+  constructor; [|apply IH; exact H2]. intros I. apply negb_true_iff in H1.
+  assert (existsb (addr_eqb x) l = true) as E; [|congruence].
+  apply existsb_exists. exists x. split; [exact I | apply addr_eqb_refl].
+Qed.
+Theorem wf_b_sound : forall c, wf_b c = true -> wf c.
+Proof.
+  intros c H. unfold wf_b in H. repeat (apply andb_true_iff in H; destruct H as [H ?]).
+  rename H into H1, H3 into H2, H2 into H3, H1 into H4, H0 into H5. split.
+  - apply nodupb_sound. exact H1.
+  - apply nodupb_sound. exact H2.
+  - intros a s Ia Is E. pose proof (proj1 (forallb_forall _ _) H3 a Ia) as X.
+    pose proof (proj1 (forallb_forall _ _) X s Is) as Y. apply negb_true_iff in Y. apply addr_eqb_neq in Y. contradiction.
+  - intros x Ix. pose proof (proj1 (forallb_forall _ _) H4 x Ix) as X. apply existsb_exists in X.
+    destruct X as [s [Is E]]. exists s. split; [exact Is | apply addr_eqb_eq; exact E].
+  - intros s Is. pose proof (proj1 (forallb_forall _ _) H5 s Is) as X. apply orb_true_iff in X.
+    destruct X as [X|X]; apply addr_eqb_eq in X; auto.
 Qed.
